@@ -6,7 +6,7 @@ import os
 from common import (HARNESS_DIR, SPEC_DIR, Scratch, Undecided, VERIF, sh, TRACING_SHIM)
 
 LIB_MODS = ["verif_spec", "verif_support", "verif_obl_leaf", "verif_obl_frame", "verif_obl_cpr",
-            "verif_obl_vel"]
+            "verif_obl_vel", "verif_obl_reader"]
 COMMON_MODS = ["verif_support", "verif_obl_tracker"]
 
 STUB_DEFS = {
